@@ -117,6 +117,34 @@ example : parseTemplate [72, 101, 108, 108, 111, 32, 37, 110] = .err (.unsupport
 theorem parts_wf (t : List Nat) (ps : List (Nat × Part)) (h : parseTemplate t = .ok ps) :
     ∀ p ∈ ps, wfPart p.2 := parseLoop_wf _ _ _ _ _ _ h
 
+/-- the spec `%5s` / `%.s` as the parser returns them -/
+def spec5s : Spec :=
+  { key := none, flags := {}, width := some (.amount 5), prec := none, ftype := .string .str, fchar := 115 }
+def specDotS : Spec :=
+  { key := none, flags := {}, width := none, prec := some .dot, ftype := .string .str, fchar := 115 }
+
+/-- `check_specifiers`: the number of specifiers and whether they are keyed; `None` exactly when keyed
+    and unkeyed specifiers are mixed. -/
+theorem checkSpecifiers_spec (ps : List (Nat × Part)) :
+    checkSpecifiers ps =
+      match specKeyed ps with
+      | [] => some (0, false)
+      | b :: bs => if bs.all (· == b) then some (bs.length + 1, b) else none := by
+  unfold checkSpecifiers
+  induction ps with
+  | nil => simp [checkSpecifiersGo, specKeyed]
+  | cons p ps ih =>
+    obtain ⟨i, part⟩ := p
+    cases part with
+    | literal l => simpa [checkSpecifiersGo, specKeyed] using ih
+    | spec s =>
+      simp only [checkSpecifiersGo, specKeyed, if_true]
+      rw [checkSpecifiersGo_pos ps 1 _ (by omega)]
+      split <;> simp; omega
+
+example : checkSpecifiers [(0, .spec spec5s), (3, .literal [32]), (4, .spec { spec5s with key := some [97] })] = none := by
+  decide
+
 /-! ## formatting one value (specs as the caller passes them: `*` already replaced) -/
 
 /-- `%d %i %u %o %x %X`: sign, `#` prefix, precision as minimum digits, zero padding after sign and
@@ -173,12 +201,6 @@ theorem bytes_eq_partial (spec : Spec) (b : List Nat) (h : BytesDomain spec b) :
   all_goals simp [resolve, toPyPrec, take_min, spaces]
   all_goals (try (cases spec.flags.left <;> simp))
   all_goals (try omega)
-
-/-- the spec `%5s` / `%.s` as the parser returns them -/
-def spec5s : Spec :=
-  { key := none, flags := {}, width := some (.amount 5), prec := none, ftype := .string .str, fchar := 115 }
-def specDotS : Spec :=
-  { key := none, flags := {}, width := none, prec := some .dot, ftype := .string .str, fchar := 115 }
 
 example : specFromStr [37, 53, 115] = .ok spec5s := by decide
 example : specFromStr [37, 46, 115] = .ok specDotS := by decide
